@@ -162,6 +162,41 @@ func (a *fnAnalysis) roots(e ast.Expr) rootset {
 	return rs
 }
 
+// appendMayWrite: append(x, ...) can store into x's backing array unless x is a full slice expression
+// x[lo:hi:hi] (no spare capacity) or a fresh conversion/literal.
+func appendMayWrite(x ast.Expr) bool {
+	switch e := x.(type) {
+	case *ast.ParenExpr:
+		return appendMayWrite(e.X)
+	case *ast.SliceExpr:
+		if e.Slice3 && e.High != nil && e.Max != nil {
+			return exprString(e.High) != exprString(e.Max)
+		}
+		return true
+	case *ast.CompositeLit:
+		return false
+	case *ast.CallExpr:
+		return false // a conversion or a call result: fresh or rooted via roots() of the call
+	}
+	return true
+}
+
+func exprString(e ast.Expr) string {
+	var sb strings.Builder
+	ast.Inspect(e, func(n ast.Node) bool {
+		switch x := n.(type) {
+		case *ast.Ident:
+			sb.WriteString(x.Name + " ")
+		case *ast.BasicLit:
+			sb.WriteString(x.Value + " ")
+		case *ast.BinaryExpr:
+			sb.WriteString(x.Op.String() + " ")
+		}
+		return true
+	})
+	return sb.String()
+}
+
 func (t *t6) guardOf(fi *funcInfo) string { return fi.guard }
 
 func passShared(pkgs []*Pkg) (string, []string) {
@@ -448,6 +483,14 @@ func passShared(pkgs []*Pkg) (string, []string) {
 									changed = true
 								}
 							}
+						} else if id, ok := s.Fun.(*ast.Ident); ok && id.Name == "append" && len(args) >= 2 && appendMayWrite(args[0]) {
+							// append writes into the spare capacity of its first argument
+							for pi := range a.roots(args[0]).params {
+								if !fi.writes[pi] {
+									fi.writes[pi] = true
+									changed = true
+								}
+							}
 						}
 					}
 					return true
@@ -501,6 +544,8 @@ func passShared(pkgs []*Pkg) (string, []string) {
 						}
 					} else if id, ok := s.Fun.(*ast.Ident); ok && id.Name == "copy" && len(s.Args) == 2 {
 						emit("store", a.roots(s.Args[0]), s, "copy")
+					} else if id, ok := s.Fun.(*ast.Ident); ok && id.Name == "append" && len(s.Args) >= 2 && appendMayWrite(s.Args[0]) {
+						emit("store", a.roots(s.Args[0]), s, "append into spare capacity")
 					}
 				}
 				return true
